@@ -68,7 +68,9 @@ func checkZero(c ZeroCase, r *ev.Rec) error {
 }
 
 var propZero = &ev.Prop[ZeroCase]{Sub: "zero", Quick: 1, Thorough: 1,
-	Gen:   func(t *rapid.T) ZeroCase { return ZeroCase{Type: zeroValues[rapid.IntRange(0, len(zeroValues)-1).Draw(t, "i")].name} },
+	Gen: func(t *rapid.T) ZeroCase {
+		return ZeroCase{Type: zeroValues[rapid.IntRange(0, len(zeroValues)-1).Draw(t, "i")].name}
+	},
 	Check: checkZero}
 
 func TestEnumZero(t *testing.T) {
